@@ -154,7 +154,7 @@ class Disk:
                 type_key is int
                 and -9223372036854775808 <= key <= 9223372036854775807
             )
-            or (type_key is float)
+            or (type_key is float and key == key)
         ):
             return key, True
         else:
